@@ -25,7 +25,6 @@ import datetime
 import html
 import io
 import logging
-import math
 from typing import cast, NamedTuple
 
 import flask
@@ -38,7 +37,7 @@ from dashlive.mpeg.dash.timing import DashTiming
 from dashlive.server import models
 from dashlive.server.events.factory import EventFactory
 from dashlive.server.options.container import OptionsContainer
-from dashlive.utils.date_time import UTC
+from dashlive.utils.date_time import UTC, timedelta_to_timecode
 from dashlive.utils.buffered_reader import BufferedReader
 
 from .base import RequestHandlerBase
@@ -563,11 +562,12 @@ class ServeMpsMedia(MediaRequestBase):
         period: models.Period = cast(models.Period, flask.g.period)
         timing_ref = period.stream.timing_reference
         assert timing_ref is not None
-        start_time: int = int(math.floor(
-            period.start.total_seconds() * timing_ref.timescale))
-        if representation.timescale != timing_ref.timescale:
-            start_time = int(math.floor(
-                start_time * representation.timescale / timing_ref.timescale))
+        # the source offset in the track's own timescale. Going through the
+        # timescale of the timing reference first moves it by up to one
+        # reference tick, which is enough to select the other neighbour when
+        # the offset is near the middle of a segment
+        start_time: int = timedelta_to_timecode(
+            period.start, representation.timescale)
         first_seg: int = representation.get_segment_index(start_time)[0]
         if seg_time is not None:
             start_time += seg_time
